@@ -69,7 +69,7 @@ def ind_oracle(interp, env, f, args, t, bb, path):
     nm = f.get("name")
 
     def deref(v):
-        return interp.read_place(env, [v.local, v.proj]) if isinstance(v, Ref) else v
+        return interp.read_ref(env, v) if isinstance(v, Ref) else v
     # calling the caller-supplied objective function on a solution yields f(solution)
     if nm in ("call_mut", "call_once", "call") and f.get("trait", "").startswith("core::ops::function"):
         a = args[1] if len(args) > 1 else TOP
@@ -86,20 +86,20 @@ def ind_oracle(interp, env, f, args, t, bb, path):
         if isinstance(v, Agg):
             return v.variant == "Some"
     if k == "core::clone::Clone::clone_from" and len(args) == 2 and isinstance(args[0], Ref):
-        interp.write_place(env, [args[0].local, args[0].proj], deref(args[1]))
+        interp.write_ref(env, args[0], deref(args[1]))
         return Agg("tuple", None, None, [])
     if k in ("core::mem::replace",) and isinstance(args[0], Ref):
         old = deref(args[0])
-        interp.write_place(env, [args[0].local, args[0].proj], args[1])
+        interp.write_ref(env, args[0], args[1])
         return old
     if k in ("core::mem::take",) and isinstance(args[0], Ref):
         old = deref(args[0])
-        interp.write_place(env, [args[0].local, args[0].proj], TOP)
+        interp.write_ref(env, args[0], TOP)
         return old
     if k == "core::mem::swap" and isinstance(args[0], Ref) and isinstance(args[1], Ref):
         a, b = deref(args[0]), deref(args[1])
-        interp.write_place(env, [args[0].local, args[0].proj], b)
-        interp.write_place(env, [args[1].local, args[1].proj], a)
+        interp.write_ref(env, args[0], b)
+        interp.write_ref(env, args[1], a)
         return Agg("tuple", None, None, [])
     if k == "core::default::Default::default":
         return Sym("sol:default") if "Encoding" in (f.get("ret") or "") else TOP
@@ -137,7 +137,7 @@ def r2_invariant(ctx):
                     home = 10000 + i
                     env_extra[home] = ind
                     homes[i] = home
-                    args[i] = Ref(home, [])
+                    args[i] = Ref(home, [], frame="root")
             # non-individual parameters: encodings are fresh solution symbols
             for i, ty in enumerate(ins):
                 if args[i] is TOP and "Encoding" in ty:
